@@ -892,6 +892,20 @@ func hostileSubset(c *core.Ctx, signed []byte) ([]byte, bool) {
 	if err != nil || it.Major != 5 {
 		return nil, false
 	}
+	if n := len(it.Elems) / 2; n < 23 && it.HeadLen == 1 && c.Chance("hostile.extraKey", 1, 3) {
+		// an extra member (the format allows them) under a key that sorts last, whose value is
+		// nested very deeply: one byte of input per level, so any per-level cost that is not
+		// small and bounded (a stack frame, an allocation) shows
+		depth := c.PickInt("hostile.depth", 3, 200, 70000, 1<<20, 1<<20, 1<<23)
+		key := "unknown-extension-member"
+		out := append([]byte{0xa0 | byte(n+1)}, signed[1:]...)
+		out = append(out, 0x78, byte(len(key)))
+		out = append(out, key...)
+		out = append(out, bytes.Repeat([]byte{0x81}, depth)...)
+		out = append(out, 0x00)
+		c.Fault("signed-subset-extra-member-nested-deeply")
+		return out, true
+	}
 	for k := 0; k+1 < len(it.Elems); k += 2 {
 		if string(it.Elems[k].Bytes) != "subset-hashes" {
 			continue
